@@ -3,13 +3,13 @@ module verif
 go 1.23
 
 require (
+	github.com/Masterminds/semver v1.5.0
 	github.com/nyaruka/gocommon v1.59.3
 	github.com/nyaruka/goflow v0.0.0
 	github.com/shopspring/decimal v1.4.0
 )
 
 require (
-	github.com/Masterminds/semver v1.5.0 // indirect
 	github.com/antlr4-go/antlr/v4 v4.13.1 // indirect
 	github.com/blevesearch/segment v0.9.1 // indirect
 	github.com/buger/jsonparser v1.1.1 // indirect
